@@ -67,7 +67,7 @@ for _cls, _view, _di in ((xviews.NodeView, "nodes", False), (xviews.EdgeView, "e
     for _n in dir(_cls):
         if not _n.startswith("_") and callable(getattr(_cls, _n)) and _n not in ("from_view",):
             VIEWMETHODS["view:%s%s.%s" % ("di" if _di else "", _view, _n)] = (_view, _n, _di)
-CLASSMETHODS = ["copy", "dual", "__lshift__", "cleanup", "__str__", "__contains__", "__len__", "__iter__", "__getitem__", "has_simplex",
+CLASSMETHODS = ["ctor-with-attrs", "copy", "dual", "__lshift__", "cleanup", "__str__", "__contains__", "__len__", "__iter__", "__getitem__", "has_simplex",
                 "is_frozen", "num_nodes", "num_edges", "nodes", "edges", "__getattr__-degree", "__getattr__-size", "__getstate__", "deepcopy", "pickle", "repr-views", "set-ops-on-views"]
 METHODS = {"method:" + m: m for m in CLASSMETHODS}
 NAMES = sorted(FUNCS) + sorted(STATS) + sorted(VIEWMETHODS) + sorted(METHODS)
@@ -335,6 +335,14 @@ def call_method(H, m, picks):
     import pickle
 
     k = picks[1]
+    if m == "ctor-with-attrs":
+        # a network handed to a constructor together with keyword attributes of the new network is an input, not the target
+        out = [type(H)(H, name="made-from", tag=k)]
+        if isinstance(H, xgi.Hypergraph) and not isinstance(H, xgi.SimplicialComplex):
+            out.append(xgi.SimplicialComplex(H, name="closure", tag=k))
+        if isinstance(H, (xgi.SimplicialComplex, xgi.DiHypergraph)):
+            out.append(xgi.Hypergraph(H, name="flattened", tag=k))
+        return out
     if m == "copy":
         return H.copy()
     if m == "dual":
